@@ -170,20 +170,38 @@ LongEvents(s) ==
                  \cup {[LongArgs(j) EXCEPT ![5] = 300] : j \in {1, 64}} IN
        SetToSeq({Ev(ar, nr, a) : ar \in {"own", "other"}, nr \in ({0, 199, 200, NSys - 3, NSys - 2, NSys - 1, NSys, X32Bit + NSys - 2} \cap (0..(2 * X32Bit - 1))) , a \in AS})
 
-Explicit(s) == s \in {"defects", "defects2", "long1", "long2", "longconds", "klong"}
+\* many groups (C01): 1..10 single-name groups, names and actions rotating, every default
+ChainActs == <<"errno", "allow", "kill_process", "trap", "log", "trace", "kill_thread">>
+ChainPolicies ==
+  {Mk(d, x, [k \in 1..n |-> [names |-> <<(k + r) % NSys>>, conds |-> <<>>, act |-> ChainActs[((k + r) % 7) + 1]]]) :
+     d \in {"allow", "errno", "kill_process"}, x \in {TRUE, FALSE}, n \in 1..10, r \in 0..2}
+\* deep entries (C03): up to three lists per syscall, up to three conditions per list, the same argument constrained twice
+DC(a, o, v) == [arg |-> a, op |-> o, val |-> v]
+DeepLists == {<<DC(0, "Equal", 1)>>, <<DC(0, "GreaterThan", 0), DC(0, "NotEqual", 1)>>, <<DC(1, "BitsSet", 1), DC(0, "Equal", 2), DC(1, "Equal", 1)>>,
+              <<DC(0, "NotEqual", 1)>>, <<DC(1, "Equal", 1), DC(1, "GreaterThan", 0)>>, <<DC(0, "BitsSet", 2), DC(0, "LessThan", 3)>>}
+DeepEntries == {<<Entry(0, l1)>> : l1 \in DeepLists}
+               \cup {<<Entry(0, l1), Entry(0, l2)>> : l1 \in DeepLists, l2 \in DeepLists}
+               \cup {<<Entry(0, l1), Entry(0, l2), Entry(0, l3)>> : l1 \in DeepLists, l2 \in DeepLists, l3 \in DeepLists}
+DeepPolicies ==
+  {Mk("allow", TRUE, << [names |-> ns, conds |-> es \o <<Entry(1, <<DC(0, "Equal", 2)>>)>>, act |-> "errno"],
+                        [names |-> <<0>>, conds |-> <<>>, act |-> "kill_process"] >>) : ns \in {<<>>}, es \in DeepEntries}
+
+Explicit(s) == s \in {"defects", "defects2", "long1", "long2", "longconds", "klong", "chain", "deep"}
 ExplicitPolicies(s) ==
   CASE s = "defects" -> BasePolicies(0) \cup Defective1(0)
     [] s = "defects2" -> BasePolicies(0) \cup Defective1(0) \cup Defective2(0)
     [] s \in {"long1", "long2", "longconds", "klong"} -> LongPolicies(s)
+    [] s = "chain" -> ChainPolicies
+    [] s = "deep" -> DeepPolicies
 
 ---------------------------------------------------------------------------
 \* SetToSeq fixes one order; it is exported with the cases
 EventSeq(s) ==
   CASE s \in {"groups", "actions"} ->
          SetToSeq({Ev(ar, nr, NoArgs) : ar \in {"own", "other"}, nr \in 0..NrMax})
-    [] s = "groups2" ->
+    [] s \in {"groups2", "chain"} ->
          SetToSeq({Ev(ar, nr, NoArgs) : ar \in {"own", "other"}, nr \in 0..NrMax})
-    [] s \in {"rich", "merge", "many", "manywide", "allops", "defects", "defects2"} ->
+    [] s \in {"rich", "merge", "many", "manywide", "allops", "defects", "defects2", "deep"} ->
          SetToSeq({Ev(ar, nr, a) : ar \in {"own", "other"},
                                    nr \in Sys \cup {NSys, X32Bit, X32Bit + 1}, a \in Args2})
     [] s \in {"long1", "long2", "longconds", "klong"} -> LongEvents(s)
